@@ -1,5 +1,5 @@
 import Mathlib.Tactic.IntervalCases
-import Splipy.Lemmas.C18NumberingE
+import Splipy.Lemmas.C18Star
 
 /-!
 # C18 — a small instance of the hypotheses of `C18_numbering_partial`: two segments sharing an end point
@@ -8,23 +8,6 @@ import Splipy.Lemmas.C18NumberingE
 namespace Splipy.MP.C18X
 
 open Splipy Splipy.MP Splipy.MP.C18L
-
-/-- boolean version of `WellOrdered` -/
-def wellOrderedB (plans : List PatchPlan) : Bool :=
-  plans.zipIdx.all fun (pk : PatchPlan × ℕ) => pk.1.faces.all fun f =>
-    f.owned || match f.src with
-      | some v => decide (v.top < pk.2)
-      | none => true
-
-theorem wellOrdered_of_B (plans : List PatchPlan) (h : wellOrderedB plans = true) : WellOrdered plans := by
-  intro k p hp f hf ho v hv
-  unfold wellOrderedB at h
-  rw [List.all_eq_true] at h
-  have h1 := h (p, k) (List.mk_mem_zipIdx_iff_getElem?.2 hp)
-  rw [List.all_eq_true] at h1
-  have h2 := h1 f hf
-  simp only [ho, hv, Bool.false_or, decide_eq_true_eq] at h2
-  exact h2
 
 def own (s : Sec) (k : ℕ) : FaceLink := { sec := s, owned := true, src := some ⟨k, [s]⟩, ori := .ok (Orientation.identity 0) }
 
